@@ -443,6 +443,15 @@ fn skip_return(core: &Core) -> bool {
     matches!(core, Core::Return { .. } | Core::Raise { .. })
 }
 
+/// Before Python 3.12, an expression in a string cannot contain the quote of that string.
+fn single_quoted(expr: &str) -> String {
+    if expr.contains('\'') || expr.contains('\\') {
+        String::from(expr)
+    } else {
+        expr.replace('"', "'")
+    }
+}
+
 /// Substitute the interpolated expressions of a string, which are Mamba source, with their
 /// Python counterparts.
 ///
@@ -465,7 +474,7 @@ fn interpolate(lit: &str, expressions: &[Core]) -> String {
         if in_expr && build_cur_expr == 0 && !cur_expr.trim().is_empty() {
             // Closing bracket of a non-empty expression
             match expressions.next() {
-                Some(core) => string.push_str(format!("{core}").trim_end()),
+                Some(core) => string.push_str(&single_quoted(format!("{core}").trim_end())),
                 None => string.push_str(&cur_expr),
             }
             cur_expr.clear();
